@@ -9,7 +9,8 @@ CONSTANTS W, MaxOps
 \* connection in the middle of the body: that version is never complete, nobody may present it as complete
 \* reval: a forced revalidation through worker w answered 304 with a larger header block (the shared entry's headers are
 \* rewritten), then a get through the other worker
-Ops == {"get", "getslow", "reload", "post", "pair", "slowabort", "reval"}
+\* purgeslow: PURGE through worker w while a slow client of the OTHER worker is still receiving the cached entry
+Ops == {"get", "getslow", "reload", "post", "pair", "slowabort", "reval", "purgeslow"}
 VARIABLES shared, nextv, lastInval, hist
 vars == <<shared, nextv, lastInval, hist>>
 Init == shared = 0 /\ nextv = 1 /\ lastInval = 0 /\ hist = <<>>
@@ -18,7 +19,7 @@ Do(op, w) ==
   /\ CASE op \in {"get", "getslow", "pair", "reval"} -> IF shared = 0 THEN shared' = nextv /\ nextv' = nextv + 1 /\ UNCHANGED lastInval ELSE UNCHANGED <<shared, nextv, lastInval>>
        [] op = "slowabort" -> IF shared = 0 THEN nextv' = nextv + 1 /\ UNCHANGED <<shared, lastInval>> ELSE UNCHANGED <<shared, nextv, lastInval>>
        [] op = "reload" -> shared' = nextv /\ nextv' = nextv + 1 /\ UNCHANGED lastInval
-       [] op = "post" -> shared' = 0 /\ lastInval' = nextv /\ nextv' = nextv + 1
+       [] op \in {"post", "purgeslow"} -> shared' = 0 /\ lastInval' = nextv /\ nextv' = nextv + 1
 Next == \E op \in Ops, w \in 1..W : Do(op, w)
 Spec == Init /\ [][Next]_vars
 NoStaleAfterInval == shared = 0 \/ shared >= lastInval
